@@ -357,7 +357,9 @@ static void mon_c12(World& w) {
         if (K == 0) { if (!pings.empty()) { w.vio("C12:ping-with-keepalive-0:" + sn, "PINGREQ sent although the negotiated keep-alive is 0"); return; }
             continue; }
         int64_t prev = t_ca;
-        for (auto& pg : pings) { int64_t t = pg.first; if (t - prev > Kns) { w.vio("C12:ping-late:" + sn, "PINGREQ " + std::to_string((t - prev) / 1e9) + " s after the previous one / the CONNACK with keep-alive " + std::to_string(K)); return; } prev = pg.second; }
+        // while an earlier write is still in progress the PINGREQ can only be queued: that wait is transport latency
+        auto sender_busy_until = [&](int64_t due, int64_t start) { for (auto& wl : w.net->wlog) if (wl.conn == int(c) && wl.t_start <= due && wl.t >= start && wl.t_start < start) return true; return false; };
+        for (auto& pg : pings) { int64_t t = pg.first; if (t - prev > Kns && !sender_busy_until(prev + Kns, t)) { w.vio("C12:ping-late:" + sn, "PINGREQ " + std::to_string((t - prev) / 1e9) + " s after the previous one / the CONNACK with keep-alive " + std::to_string(K)); return; } prev = pg.second; }
         // the connection stayed up longer than K after the last ping without a new one (only when nothing else disturbed it)
         bool disturbed = conn.dead || conn.broker_closed;
         if (!disturbed && t_end - prev > Kns && !st->write_parked) { w.vio("C12:ping-missing:" + sn, "no PINGREQ within " + std::to_string(K) + " s (connection idle for " + std::to_string((t_end - prev) / 1e9) + " s)"); return; }
@@ -366,6 +368,9 @@ static void mon_c12(World& w) {
     for (size_t c = 0; c < w.broker->cs.size(); ++c) { auto& cs = w.broker->cs[c]; if (!cs.handshake_ok) continue;
         int K = sc.keep_alive; for (auto& q : cs.connack_props_sent) if (q.id == 0x13) K = int(q.num);
         const sim::Conn& conn = w.net->conns[c]; auto& st = w.net->streams[conn.stream];
+        // only connections whose handshake the client completed (it read the CONNACK in full) have a keep-alive regime
+        int64_t t_ca2 = -1; { size_t calen = 0; for (auto& e : wire) if (e.conn == int(c) && !e.c2b && e.pkt.type == ref::CONNACK) { calen = e.raw.size(); break; } for (auto& m : conn.read_marks) if (m.first >= calen) { t_ca2 = m.second; break; } }
+        if (t_ca2 < 0) continue;
         // abandoned for silence = the timed read was cancelled by its timer while nothing else was wrong with the connection
         int64_t t_abandon = st->read_cancelled_ns;
         bool abandoned_by_client = t_abandon >= 0 && !conn.dead && !conn.broker_closed && !w.broker->cs[c].disconnected && !(st->closed_ns >= 0 && st->closed_ns < t_abandon) && !(st->first_error_ns >= 0 && st->first_error_ns <= t_abandon);
@@ -917,13 +922,20 @@ std::vector<Scenario> scenarios_for(const std::string& prop, int tier) {
         // unsolicited (stale / duplicate) well-formed acknowledgements for the id the next request will get
         std::vector<std::string> stale; { ref::Packet q = pa; q.rc = 0x10; q.props = {ref::pstr(0x1F, "stale")}; stale.push_back(ref::encode(q)); q.type = ref::PUBREC; q.rc = 0; stale.push_back(ref::encode(q)); q.type = ref::PUBCOMP; stale.push_back(ref::encode(q));
             ref::Packet z = sa; z.rcs = {0x80, 0x80}; stale.push_back(ref::encode(z)); z.type = ref::UNSUBACK; z.rcs = {0x11}; stale.push_back(ref::encode(z)); }
-        int id = 0;
+        int id = 0, id_edge = 0;
         auto add = [&](const Ph& ph, const std::string& raw, const char* kind) {
             Scenario s = base(std::string("Z-") + ph.name + "-" + kind + "-" + std::to_string(id++), ph.script, F_CHUNK | F_BYTE, std::min<int>(tier ? 4 : (small ? 1 : 2), int(raw.size()) - 1), M_C19 | M_C01 | M_C14 | M_C02);
             if (s.D < 0) s.D = 0;
             if (ph.on_type) { s.broker.hostile.enabled = true; s.broker.hostile.on_type = ph.on_type; s.broker.hostile.nth = ph.nth; s.broker.hostile.raw = raw; }
             else for (auto& a : s.script) if (a.k == Action::BRAW) a.payload = raw;
             s.max_steps = 400; s.expect_note = rep_hex(raw); v.push_back(s); };
+        // packets at the edge of the receive limit (default 65536, or the client's own Maximum Packet Size): header + body from limit-4 to limit+2 bytes
+        for (int limit : {65536, 80}) for (int total = limit - 4; total <= limit + 2; ++total) for (int hdr : {0}) { (void)hdr;
+            int rl = total - (total - 1 > 16383 + 3 ? 4 : total - 1 > 127 + 2 ? 3 : 2); // fixed header = 1 + varint size
+            ref::Packet big; big.type = ref::PUBLISH; big.flags = 0; big.topic = "big"; big.payload = std::string(size_t(rl - 2 - 3 - 1), 'B'); std::string raw = ref::encode(big);
+            Ph ph{"idle-size-edge", {RUN(), WAIT_HS(1), RECV(2), A(Action::BRAW), PUB(1, 1)}, 0, 0, ""};
+            Scenario sc_ = base(std::string("Z-idle-size-edge-") + std::to_string(limit) + "-" + std::to_string(id_edge++), ph.script, F_CHUNK, tier ? 2 : 1, M_C19 | M_C01 | M_C02);
+            for (auto& a : sc_.script) if (a.k == Action::BRAW) a.payload = raw; if (limit != 65536) sc_.connect_props = {ref::pnum(0x27, uint32_t(limit))}; sc_.max_steps = 400; v.push_back(sc_); }
         for (auto& st_ : stale) { Ph ph{"idle-stale-ack-sub", {RUN(), WAIT_HS(1), A(Action::BRAW), SUB({{"a", 1}, {"b/#", 2}}), PUB(1, 1)}, 0, 0, ""}; add(ph, st_, "stale"); Ph pu{"idle-stale-ack-unsub", {RUN(), WAIT_HS(1), A(Action::BRAW), UNSUB({"a"}), PUB(2, 1)}, 0, 0, ""}; add(pu, st_, "stale"); }
         for (auto& st_ : stale) for (int q = 1; q <= 2; ++q) { Ph ph{"idle-stale-ack", {RUN(), WAIT_HS(1), A(Action::BRAW), PUB(q, 1), SUB({{"a", 1}, {"b/#", 2}})}, 0, 0, ""}; add(ph, st_, "stale"); add(ph, st_ + st_, "stale2"); }
         for (auto& ph : phases) {
